@@ -29,6 +29,12 @@ def encodeSE : PyStr → Option Bytes
 
 def isCont (x : UInt8) : Bool := 0x80 ≤ x.toNat && x.toNat < 0xC0
 
+/-- second-byte ranges of the 3- and 4-byte forms (Unicode table 3-7: no overlongs, no surrogates, ≤ U+10FFFF) -/
+def lo3 (n0 : Nat) : Nat := if n0 = 0xE0 then 0xA0 else 0x80
+def hi3 (n0 : Nat) : Nat := if n0 = 0xED then 0xA0 else 0xC0
+def lo4 (n0 : Nat) : Nat := if n0 = 0xF0 then 0x90 else 0x80
+def hi4 (n0 : Nat) : Nat := if n0 = 0xF4 then 0x90 else 0xC0
+
 /-- A well-formed UTF-8 sequence at the head (Unicode table 3-7): scalar value and number of bytes. -/
 def headSeq : Bytes → Option (Nat × Nat)
   | [] => none
@@ -43,18 +49,14 @@ def headSeq : Bytes → Option (Nat × Nat)
     else if n0 < 0xF0 then
       match rest with
       | b1 :: b2 :: _ =>
-        let lo := if n0 = 0xE0 then 0xA0 else 0x80
-        let hi := if n0 = 0xED then 0xA0 else 0xC0
-        if lo ≤ b1.toNat && b1.toNat < hi && isCont b2 then
+        if lo3 n0 ≤ b1.toNat && b1.toNat < hi3 n0 && isCont b2 then
           some ((n0 - 0xE0) * 4096 + (b1.toNat - 0x80) * 64 + (b2.toNat - 0x80), 3)
         else none
       | _ => none
     else if n0 < 0xF5 then
       match rest with
       | b1 :: b2 :: b3 :: _ =>
-        let lo := if n0 = 0xF0 then 0x90 else 0x80
-        let hi := if n0 = 0xF4 then 0x90 else 0xC0
-        if lo ≤ b1.toNat && b1.toNat < hi && isCont b2 && isCont b3 then
+        if lo4 n0 ≤ b1.toNat && b1.toNat < hi4 n0 && isCont b2 && isCont b3 then
           some ((n0 - 0xF0) * 262144 + (b1.toNat - 0x80) * 4096 + (b2.toNat - 0x80) * 64 + (b3.toNat - 0x80), 4)
         else none
       | _ => none
